@@ -45,6 +45,13 @@ import EPV.Gen.InitRiemIGEOS
 import EPV.Gen.InitRiemGenEOS
 import EPV.Gen.InitRiem2D
 import EPV.Gen.InitBBNoh
+import EPV.Gen.InitBBNohPlanar
+import EPV.Gen.InitBBNohCyl
+import EPV.Gen.InitBBNohSph
+import EPV.Gen.InitResEnergy
+import EPV.Gen.InitResSEnergy
+import EPV.Gen.InitResPressure
+import EPV.Gen.InitResSPressure
 
 set_option linter.unusedVariables false
 
@@ -156,6 +163,36 @@ def BBNoh.Documented (p : InitBBNoh.P) (u0 : ℝ) : Prop :=
 def BBNoh.Coded (p : InitBBNoh.P) : Prop :=
   (p.geometry = 1 ∨ p.geometry = 2 ∨ p.geometry = 3) ∧ p.ic_velocity < 0 ∧ 0 < p.ic_density ∧ 0 ≤ p.ic_pressure ∧
   (p.ic_symmetry = 0 ∨ p.ic_symmetry = 1 ∨ p.ic_symmetry = 2) ∧ (p.ic_symmetry ≠ 0 → p.ic_pressure = 0)
+
+/-- what the two general residual classes (`energy_noh_residual`, `pressure_noh_residual`) state about
+`initial_conditions`, in their error messages:
+  "Error: initial velocity must be negative by assumptions of the Noh Problem."
+  "Error: initial density must be postive and nonzero."
+  "Error: initial pressure must be nonnegative for the Noh Problem."
+  "Error: Symmetry must be 0, 1, or 2."
+  "Error: if `symmetry' != 0, then the initial pressure must be 0."  -/
+def NohIC (velocity density pressure symmetry : ℝ) : Prop :=
+  velocity < 0 ∧ 0 < density ∧ 0 ≤ pressure ∧ (symmetry = 0 ∨ symmetry = 1 ∨ symmetry = 2) ∧
+  (symmetry ≠ 0 → pressure = 0)
+
+/-- the two simplified residual classes (package docstring: "`simplified_energy_noh_residual` should only be used if the
+Noh problem is being posed in planar geometry and the initial pressure is zero"; error messages "This residual assumes
+the initial pressure is 0.", "This residual assumes symmetry = 0.") -/
+def NohICSimplified (velocity density pressure symmetry : ℝ) : Prop :=
+  velocity < 0 ∧ 0 < density ∧ pressure = 0 ∧ symmetry = 0
+
+def ResEnergy.Documented (p : InitResEnergy.P) : Prop := NohIC p.ic_velocity p.ic_density p.ic_pressure p.ic_symmetry
+def ResPressure.Documented (p : InitResPressure.P) : Prop := NohIC p.ic_velocity p.ic_density p.ic_pressure p.ic_symmetry
+def ResSEnergy.Documented (p : InitResSEnergy.P) : Prop :=
+  NohICSimplified p.ic_velocity p.ic_density p.ic_pressure p.ic_symmetry
+def ResSPressure.Documented (p : InitResSPressure.P) : Prop :=
+  NohICSimplified p.ic_velocity p.ic_density p.ic_pressure p.ic_symmetry
+
+/-- the geometry wrappers set `symmetry` themselves (0, 1, 2) and take no keyword: the restrictions are those of
+`pressure_noh_residual` on the remaining three entries -/
+def BBNohPlanar.Documented (p : InitBBNohPlanar.P) : Prop := NohIC p.ic_velocity p.ic_density p.ic_pressure 0
+def BBNohCyl.Documented (p : InitBBNohCyl.P) : Prop := NohIC p.ic_velocity p.ic_density p.ic_pressure 1
+def BBNohSph.Documented (p : InitBBNohSph.P) : Prop := NohIC p.ic_velocity p.ic_density p.ic_pressure 2
 
 /-! ### classes whose documentation states no restriction on any parameter -/
 
